@@ -26,7 +26,13 @@ import (
 	"time"
 )
 
-const VerifDir = "/verif"
+// VerifDir is the root of the verification tree (bin/check exports VERIF_DIR; default /verif).
+var VerifDir = func() string {
+	if d := os.Getenv("VERIF_DIR"); d != "" {
+		return d
+	}
+	return "/verif"
+}()
 
 // Case is one abstract case, as emitted by TLC or built by a family's own generator.
 type Case struct {
